@@ -63,7 +63,9 @@ type ResourceSubscription struct {
 	state     subscriptionState
 	subs      map[Subscriber]struct{}
 	resetting bool
-	links     []string
+	// State events received while resetting, in case the get request fails
+	resetEvents []*ResourceEvent
+	links       []string
 	// version is the internal resource version, starting with 0 and bumped +1
 	// for each modifying event.
 	version uint
@@ -144,23 +146,31 @@ func (rs *ResourceSubscription) handleEvent(r *ResourceEvent) {
 	// Set event to target current version of the resource.
 	r.Version = rs.version
 
+	// State events received during a reset are superseded by the get
+	// response. They are kept, to be handled should the get request fail.
+	if rs.resetting {
+		switch r.Event {
+		case "change", "add", "remove", "delete":
+			rs.resetEvents = append(rs.resetEvents, r)
+			return
+		}
+	}
+
 	switch r.Event {
 	case "change":
-		if rs.resetting || !rs.handleEventChange(r) {
+		if !rs.handleEventChange(r) {
 			return
 		}
 	case "add":
-		if rs.resetting || !rs.handleEventAdd(r) {
+		if !rs.handleEventAdd(r) {
 			return
 		}
 	case "remove":
-		if rs.resetting || !rs.handleEventRemove(r) {
+		if !rs.handleEventRemove(r) {
 			return
 		}
 	case "delete":
-		if !rs.resetting {
-			rs.handleEventDelete(r)
-		}
+		rs.handleEventDelete(r)
 		return
 	}
 
@@ -501,6 +511,10 @@ func (rs *ResourceSubscription) handleResetAccess(t *Throttle) {
 
 func (rs *ResourceSubscription) processResetGetResponse(payload []byte, err error) {
 	verifNote("rsResetAns", "name", rs.e.ResourceName, "query", rs.query, "state", int(rs.state), "failed", err != nil)
+	// The events received while resetting
+	events := rs.resetEvents
+	rs.resetEvents = nil
+
 	var result *codec.GetResult
 	// Either we have an error making the request
 	// or an error in the service's response
@@ -515,11 +529,15 @@ func (rs *ResourceSubscription) processResetGetResponse(payload []byte, err erro
 	if err != nil {
 		// In case of a system.notFound error,
 		// a delete event is generated. Otherwise we
-		// just log the error.
+		// log the error, and handle the events that
+		// no get response has superseded.
 		if reserr.IsError(err, reserr.CodeNotFound) {
 			rs.handleEvent(&ResourceEvent{Event: "delete"})
 		} else {
 			rs.e.cache.Errorf("Subscription %s: Reset get error - %s", rs.e.ResourceName, err)
+			for _, ev := range events {
+				rs.handleEvent(ev)
+			}
 		}
 		return
 	}
